@@ -267,6 +267,8 @@ pub(crate) fn judge_run(
     bad
 }
 
+const HIGH_WORLD: usize = usize::MAX;
+
 pub(crate) fn run(opts: &Opts, report: &mut Report) {
     let thorough = opts.thorough();
     let env0 = Env::dummy();
@@ -279,14 +281,40 @@ pub(crate) fn run(opts: &Opts, report: &mut Report) {
             }
         }
     }
+    // block numbers beyond one byte (records and index keys are ordered by their encoded block
+    // number): a 270-block chain with the scripts registered from block 248, filter batches of 4
+    // and slow block bodies, so that several matched-blocks records around block 256 are pending
+    items.push((HIGH_WORLD, 0, 10_004));
+    if thorough {
+        items.push((HIGH_WORLD, 0, 10_003));
+        items.push((HIGH_WORLD, 0, 5));
+    }
     drop(env0);
     let n_items = items.len();
     let worker = crate::verif::props::shard::run("C03", opts, report, n_items, 16, |item, report| {
         let env = Env::dummy();
         let (wi, si, batch) = items[item];
-        let ws = worlds(&env);
-        let (wname, chain) = &ws[wi];
-        let sets = script_sets(&env, chain.tip_number());
+        let mut ws = worlds(&env);
+        let mut sets_override: Option<Vec<(String, Vec<Reg>)>> = None;
+        if wi == HIGH_WORLD {
+            let mut c = Chain::new(Arc::clone(&env.consensus), scen::wavy_plan(60));
+            let acts = vec![
+                (250, Act::Mine('A')),
+                (252, Act::Mine('A')),
+                (254, Act::Move('A', 'B')),
+                (255, Act::Mine('B')),
+                (257, Act::Move('A', 'A')),
+                (261, Act::Move('B', 'A')),
+                (263, Act::Mine('A')),
+                (266, Act::Move('A', 'B')),
+            ];
+            scen::extend_chain(&mut c, &env.scripts, 270, &acts);
+            ws.push(("W-high270".to_owned(), c));
+            let reg = |ch: char, start: u64| Reg { script: env.scripts.by_name(ch), is_lock: true, start };
+            sets_override = Some(vec![("A@248,B@248".to_owned(), vec![reg('A', 248), reg('B', 248)])]);
+        }
+        let (wname, chain) = &ws[wi.min(ws.len() - 1)];
+        let sets = sets_override.unwrap_or_else(|| script_sets(&env, chain.tip_number()));
         let (sname, regs) = &sets[si];
         let sc = IndexScenario {
             env: &env,
